@@ -40,10 +40,10 @@ void harness(void) {
   enum { WT = WORDS(NT), WB = WORDS(BC), RST = (WT & 1) ? WT + 1 : WT };
   vlcg_seed(VSEED);
   verif_init(KINIT);
-  mzd_t *T = mzd_init(NT, NT);
+  mzd_t *T = vop_raw(NT, NT, 0, 0);
   vfill_mixed(T, TPAT, T_SYM_R0, T_SYM_R1, T_SYM_W0, T_SYM_W1);
   for (int i = 0; i < NT; ++i) mzd_write_bit(T, i, i, 1);
-  mzd_t *B = mzd_init(BR, BC);
+  mzd_t *B = vop_raw(BR, BC, 2, 0);
   vfill_mixed(B, 0, B_SYM_R0, B_SYM_R1, B_SYM_W0, B_SYM_W1);
   static word t[NT * WT], b0[BR * WB], x[BR * WB], chk[BR * WB], st[NT * RST];
   vsnap(st, T);
@@ -71,7 +71,7 @@ void harness(void) {
   {
     word d = 0; /* padding of the owned B stays zero */
     for (int i = 0; i < BR; ++i) d |= mzd_row_const(B, i)[WB - 1] & ~vmask(BC);
-    VASSERT(d == 0, "padding of B stays zero");
+    if (VOWNED(B)) VASSERT(d == 0, "padding of B stays zero");
   }
 #if VARIANT <= 1
   ref_mul(chk, t, NT, NT, WT, x, WB, 0);   /* T * X */
@@ -80,7 +80,8 @@ void harness(void) {
 #endif
   word d = 0;
   for (int i = 0; i < BR * WB; ++i) d |= chk[i] ^ b0[i];
-  VASSERT(d == 0, VARIANT <= 1 ? "T*X == B0 (named triangle + unit diagonal only)" : "X*T == B0 (named triangle + unit diagonal only)");
+  VASSERT(d == 0, "T*X == B0 resp. X*T == B0 (named triangle + unit diagonal only)");
   VASSERT(vsnap_same(st, T), "T unchanged");
+  VFRAMES();
   VDONE();
 }
